@@ -217,6 +217,8 @@ class TemporalEntityComponent(EntityComponent):
         """
         elements = dict()
         counter = 1
+        if self.entity_type in (EntityType.TIME, EntityType.DATE) and int(step) <= 0:
+            raise Exception(f"Entity {self.get_name()}, the length of the range steps must be positive, found {step}")
         try:
             if self.entity_type == EntityType.TIME:
                 start = datetime.strptime(lhs_value, '%I:%M %p')
